@@ -3,7 +3,7 @@
 From Coq Require Import ZArith QArith List Ring_polynom.
 From Coq Require String.
 From ADC Require Import Core.Scalar Core.Index Core.Expr Core.Swap Core.Canon Core.Equiv
-  Core.DeltaRule Core.Equiv2 Core.Frac Core.FracSound.
+  Core.DeltaRule Core.Equiv2 Core.Frac Core.FracSound Core.Unfold Models.Itmd.
 
 (* Every (result, expected) pair accepted by the fraction validator - the
    library's expansion against the expansion with the registered definitions
@@ -22,3 +22,17 @@ Theorem C11_expansion_pair_value :
   forall r, env_ok S T tg r -> eval S T tg r e1 = eval S T tg r e2.
 Proof. exact check_equiv_frac_sound. Qed.
 Print Assumptions C11_expansion_pair_value.
+
+(* Expansion as repeated replacement of an intermediate tensor factor by an
+   instance of its definition (fresh contracted indices, checked): in every
+   tensor model in which each replaced tensor instance has the value of the
+   inserted definition body - "every intermediate tensor takes the value of
+   its registered definition" - the expanded expression has the same value,
+   for every target assignment.  The per-run check lets Coq perform this
+   expansion (`unfold_expr`) and compares it with the library's output. *)
+Theorem C11_expansion_by_definition_value :
+  forall (S : Scalar) (T : tmodel S) tg steps e e' used,
+  Itmd.unfold_expr tg steps e = Some (e', used) -> Itmd.defs_hold S T used ->
+  forall r, eval S T tg r e = eval S T tg r e'.
+Proof. exact Itmd.unfold_expr_sound. Qed.
+Print Assumptions C11_expansion_by_definition_value.
